@@ -47,6 +47,27 @@ fn check_against_row(pa: &BlockHashPositionArray, a: &[u8], b: &[u8]) -> Result<
 pub fn replay(c: &Value) -> Result<(), String> {
     let a = unhex(c["a"].as_str().ok_or("a")?);
     let b = unhex(c["b"].as_str().ok_or("b")?);
+    if let Some(prev) = c["reuse_prev"].as_str() {
+        let prev = unhex(prev);
+        let mode = c["reuse_mode"].as_u64().unwrap_or(2);
+        let mut pa = BlockHashPositionArray::new();
+        guarded(|| {
+            pa.init_from(&prev);
+            match mode {
+                0 => pa.init_from(&[]),
+                1 => pa.clear(),
+                _ => {}
+            }
+            pa.init_from(&a);
+        })?;
+        if pa != pa_of(&a)? {
+            return Err("re-used position array differs from a fresh one".into());
+        }
+        let d = guarded(|| pa.edit_distance(&b))?;
+        if d != refmodel::lcs_distance(&a, &b) {
+            return Err(format!("edit_distance on a re-used position array = {} expected {}", d, refmodel::lcs_distance(&a, &b)));
+        }
+    }
     check_pair(&a, &b)?;
     check_pair(&b, &a)?;
     Ok(())
@@ -74,13 +95,38 @@ fn two_run(x: u8, y: u8, totals: &[usize]) -> Vec<Vec<u8>> {
 fn all_pairs_section(rep: &mut Report, name: &str, left: &[Vec<u8>], right: &[Vec<u8>], via_target_stride: usize) {
     let acc = par_shards(left.len(), |i, acc| {
         let a = &left[i];
-        let pa = match pa_of(a) {
-            Ok(p) => p,
-            Err(e) => {
-                acc.violation(format!("init_from a={}", hex(a)), e, case(a, &[]));
-                return;
+        // the position array is a *re-used* object: it held another string of the family before, and
+        // every third one was emptied (init_from(&[]) / clear()) in between
+        let pa = {
+            let prev = &left[(i * 7 + 3) % left.len()];
+            let mut pa = BlockHashPositionArray::new();
+            let r = guarded(|| {
+                pa.init_from(prev);
+                match i % 3 {
+                    0 => pa.init_from(&[]),
+                    1 => pa.clear(),
+                    _ => {}
+                }
+                pa.init_from(a);
+            });
+            match r {
+                Ok(()) => pa,
+                Err(e) => {
+                    acc.violation(format!("init_from a={}", hex(a)), e, case(a, &[]));
+                    return;
+                }
             }
         };
+        if i % 5 == 0 {
+            // the re-used object must equal a fresh one
+            match pa_of(a) {
+                Ok(fresh) if fresh == pa => {}
+                _ => {
+                    acc.violation(format!("re-used position array differs from a fresh one a={}", hex(a)), "re-used position array differs from a fresh one".into(), json!({"a": hex(a), "b": "", "reuse_prev": hex(&left[(i * 7 + 3) % left.len()]), "reuse_mode": i % 3}));
+                    return;
+                }
+            }
+        }
         for (j, b) in right.iter().enumerate() {
             acc.evaluations += 1;
             if !a.is_empty() && !b.is_empty() {
@@ -94,7 +140,11 @@ fn all_pairs_section(rep: &mut Report, name: &str, left: &[Vec<u8>], right: &[Ve
                         acc.count("distance_zero", 1);
                     }
                 }
-                Err(e) => acc.violation(format!("a={} b={}", hex(a), hex(b)), e, case(a, b)),
+                Err(e) => acc.violation(
+                    format!("a={} b={}", hex(a), hex(b)),
+                    e,
+                    json!({"a": hex(a), "b": hex(b), "reuse_prev": hex(&left[(i * 7 + 3) % left.len()]), "reuse_mode": i % 3}),
+                ),
             }
         }
         if i == left.len() / 2 {
@@ -173,7 +223,7 @@ pub fn run(ctx: &Ctx) -> Report {
     rep.set("exhaustive", true);
     rep.set(
         "rule",
-        "A1: ALL ordered pairs of strings over alphabets of size 2 / 3 / 4 up to the tier's length bound; A2: structured families at the real capacity: two-run strings X^iY^j (carry chains of every length through bit 63) against the same family with equal, swapped and different symbols, periodic strings (period <= 4) against rotations and prefixes, the ramp 0..63 against every substring, rotation and single-symbol edit at length 63 / 64, both argument orders; every pair compared with a textbook DP; a strided subset also through FuzzyHashCompareTarget::block_hash_1()/2().  Pairs are distinct within a section; non-trivial = both strings non-empty.",
+        "A1: ALL ordered pairs of strings over alphabets of size 2 / 3 / 4 up to the tier's length bound; A2: structured families at the real capacity: two-run strings X^iY^j (carry chains of every length through bit 63) against the same family with equal, swapped and different symbols, periodic strings (period <= 4) against rotations and prefixes, the ramp 0..63 against every substring, rotation and single-symbol edit at length 63 / 64, both argument orders; every pair compared with a textbook DP; a strided subset also through FuzzyHashCompareTarget::block_hash_1()/2(); the position array used for each left string is a re-used object (it held another string before; every third one was emptied with init_from(&[]) / clear() in between) and a fifth of them are compared with a fresh one.  Pairs are distinct within a section; non-trivial = both strings non-empty.",
     );
     rep.assume("beyond the enumerated families (alphabet > 4 with length > the bound, unstructured long strings) nothing is claimed");
     rep
